@@ -282,9 +282,51 @@ void ApiRun::op_parse_into(const Op &o) {
 }
 
 // ------------------------------------------------------------------------------------------------ planted failing calls (C05)
+// A failing cif_container_set_value that fails AFTER it has begun its transaction.  The only way to provoke that without faults is a
+// scalar loop that has lost its only packet but not its row counter (explicit scalar loop of two items, one packet valuing only the
+// first item, that item removed): adding a new scalar there is refused by the schema (CIF_RESERVED_LOOP) once the item has already
+// been registered.  What cif.h says about that state is thin, so it is built in a scratch block outside the model, judged only by
+// "a failed call leaves no trace" (dump of the scratch block before = after), and destroyed again.
+void ApiRun::plant_stranded_scalar(const Op &o, int ci) {
+    RCif &c = cifs[(size_t) ci];
+    if (c.iter >= 0) SKIP("iterator open");
+    ustr code = U("zz_scratch_block");
+    if (c.model.block(mnorm(code))) SKIP("scratch code taken");
+    cif_block_tp *b = NULL;
+    if (CALLN("cif_create_block", cif_create_block(c.cif, UC(code), &b)) != CIF_OK || !b) SKIP("scratch block not created");
+    std::unique_ptr<Violation> bad;
+    try {
+        ustr na = U("_sa"), nb = U("_sb"), nc = U("_sc"), empty;
+        UChar *names[3] = { (UChar *) UC(na), (UChar *) UC(nb), NULL }; cif_loop_tp *l = NULL;
+        int rc = CALLN("cif_container_create_loop", cif_container_create_loop(b, UC(empty), names, &l));
+        if (rc != CIF_OK || !l) { ev("scratch: create_loop -> %s", rc_name(rc)); throw 0; }
+        UChar *n1[2] = { (UChar *) UC(na), NULL }; cif_packet_tp *p = NULL; cif_value_tp *v = NULL;
+        rc = cif_packet_create(&p, n1); if (rc == CIF_OK) rc = cif_value_create(CIF_UNK_KIND, &v); if (rc == CIF_OK) rc = cif_value_copy_char(v, UC(U("x"))); if (rc == CIF_OK) rc = cif_packet_set_item(p, UC(na), v);
+        if (rc == CIF_OK) rc = CALLN("cif_loop_add_packet", cif_loop_add_packet(l, p));
+        if (rc == CIF_OK) rc = CALLN("cif_container_remove_item", cif_container_remove_item(b, UC(na)));
+        if (p) cif_packet_free(p);
+        cif_loop_free(l);
+        if (rc != CIF_OK) { if (v) cif_value_free(v); ev("scratch: setup -> %s", rc_name(rc)); throw 0; }
+        std::string before = canon(dump_container(b, cfg.prop.c_str()), DumpOpts(), 0);
+        int r2 = CALL("cif_container_set_value", cif_container_set_value(b, UC(nc), v));
+        cif_value_free(v);
+        ev("plant %d (stranded scalar loop): cif_container_set_value -> %s", o.pf_kind, rc_name(r2));
+        g_stats.inc(strprintf("plant.kind%02d.pos%d", o.pf_kind, 0)); g_stats.inc(r2 == CIF_OK ? "plant.stranded.ok" : "plant.stranded.failed");
+        if (r2 != CIF_OK) {
+            std::string after = canon(dump_container(b, cfg.prop.c_str()), DumpOpts(), 0);
+            if (before != after) violate("unchanged", strprintf("plant%d:set_value", o.pf_kind), strprintf("cif_container_set_value failed with %s but changed the container: %s", rc_name(r2), first_diff(before, after).c_str()));
+            if (sqlite3_get_autocommit(c.cif->db) == 0) violate("autocommit", strprintf("plant%d:tx_left_open", o.pf_kind), "the failing call left a transaction open");
+        }
+    } catch (Violation &vi) { bad.reset(new Violation(vi)); } catch (int) { }
+    int rd = CALLN("cif_container_destroy", cif_container_destroy(b));
+    if (bad) throw *bad;
+    if (rd != CIF_OK) violate("next_call", "scratch_destroy", strprintf("the scratch block cannot be destroyed: %s", rc_name(rd)));
+    check_dump(ci, "after the scratch block was destroyed");
+}
 void ApiRun::op_plant_fail(const Op &o) {
     int hs = pick_cont(o.a, true); if (hs < 0) SKIP("no container handle on a CIF without an open iterator");
     int ci = conts[(size_t) hs].cif; RCif &c = cifs[(size_t) ci];
+    if (o.pf_kind == PF_SetValueStrandedScalar) { plant_stranded_scalar(o, ci); return; }
     MCont *m = mcont(hs);
     Rng r(o.seed);
     // candidate loop handles in this CIF
